@@ -3,6 +3,7 @@
 from __future__ import annotations
 
 import ast
+import os
 
 from sa import term as T
 from sa.effects import Effects
@@ -48,8 +49,52 @@ KERNEL_MODULES = ['conversion.tof', 'conversion.beamline']
 CASCADE_SPECS = {'wavelength': P(dim='L'), 'time': P(dim='T', positive=False), 'distance': P(dim='L', positive=False)}
 
 
+def _private_path(module: str) -> bool:
+    return any(p.startswith('_') for p in module.split('.') if p)
+
+
+_EXPORTED: dict[int, set] = {}
+
+
+def exported_from_private_modules(repo) -> set:
+    """(module, top-level name) of every function or class that a module with a public path imports under a public name
+    (lazy-loader stubs included): the part of a private module that is reachable as API."""
+    if id(repo) in _EXPORTED:
+        return _EXPORTED[id(repo)]
+    out = set()
+    for mname, mi in repo.modules.items():
+        if _private_path(mname):
+            continue
+        for local, imp in mi.imports.items():
+            if local.startswith('_') or imp[0] != 'rel':
+                continue
+            got = repo.resolve_rel(imp[1], imp[2])
+            if got is not None and got[0] in ('func', 'class'):
+                out.add((got[1].module, got[1].name if got[0] == 'class' else got[1].qualname))
+        pyi = os.path.join(os.path.dirname(mi.path), '__init__.pyi')
+        if os.path.basename(mi.path) == '__init__.py' and os.path.exists(pyi):
+            try:
+                tree = ast.parse(open(pyi, encoding='utf-8').read())
+            except SyntaxError:
+                continue
+            for st in tree.body:
+                if isinstance(st, ast.ImportFrom) and st.level:
+                    for a in st.names:
+                        if (a.asname or a.name).startswith('_'):
+                            continue
+                        got = repo._resolve_stub(mname, pyi, a.asname or a.name)
+                        if got is not None and got[0] in ('func', 'class'):
+                            out.add((got[1].module, got[1].name if got[0] == 'class' else got[1].qualname))
+    _EXPORTED[id(repo)] = out
+    return out
+
+
 def is_public(fi, eff=None) -> bool:
     parts = fi.qualname.split('.')
+    if _private_path(fi.module) and eff is not None:
+        # a name without underscore inside a private module is API only where a public module re-exports it
+        if (fi.module, parts[0]) not in exported_from_private_modules(eff.repo):
+            return False
     if fi.cls is not None and fi.cls.name.startswith('_') and eff is not None:
         # methods of a private class are entry points only through public subclasses (e.g. _CIFBase -> Chunk, Loop);
         # a private record or helper class without any is internal to the functions that build it
@@ -84,7 +129,7 @@ def run(tier: str) -> Run:
     run.assumptions = ['scipp and numpy functions write only to their out= argument',
                        'Variable.copy() / DataArray.copy() are deep unless deep=False']
 
-    r1 = run.rule('R1', 'public functions write to nothing reachable from an argument (frozen list of documented mutators excepted)', 190)
+    r1 = run.rule('R1', 'public functions write to nothing reachable from an argument (frozen list of documented mutators excepted)', 170)
     n_pub = 0
     for fq, fi in sorted(eff.funcs.items()):
         if not fi.module.startswith(TARGET_PREFIXES) or not is_public(fi, eff):
